@@ -61,6 +61,14 @@ def streams(tier):
     c = corpus()
     inv = invalid_tails()
     small = c[0:3] + c[8:10] + c[12:14] + c[22:24]
+    # messages of a type this implementation does not know (valid: the specification asks for them to be ignored, the loader
+    # hands them on), with all the header fields a known type could require and with none of them
+    unk = []
+    for e in 'lB':
+        unk.append(R.encode_message(R.Msg(7, 0, 9, [(R.F_PATH, (b'o', b'/u')), (R.F_INTERFACE, (b's', b'u.v')), (R.F_MEMBER, (b's', b'U'))], [(b's', b'unknown')], e)))
+        unk.append(R.encode_message(R.Msg(200, 0, 9, [], [], e)))
+    c = c + unk
+    small = small[:4] + unk[:2] + small[4:] + unk[2:]
     out = []
     # single messages
     for m in c:
